@@ -37,6 +37,12 @@ theorem HIST_invariant {S : Spl} {c : Corr} {o : Incomplete} (h : construct S c 
     Fresh S (run S o ops) ∧ FreshS S (run S o ops) :=
   ⟨fresh_of_freshS (freshS_run ops (construct_ok h).1), freshS_run ops (construct_ok h).1⟩
 
+/-- the same, said of every intermediate state: after each single call of the history (returned or raised) the object is
+fresh -/
+theorem HIST_invariant_every_step {S : Spl} {c : Corr} {o : Incomplete} (h : construct S c = .ok o) (ops : List Op) :
+    ∀ x ∈ trace S o ops, Fresh S x.1 :=
+  fun x hx => fresh_of_freshS (freshS_trace ops (construct_ok h).1 x hx)
+
 /-- the structural invariant is the stronger one -/
 theorem HIST_freshS_fresh {S : Spl} {o : Incomplete} (hf : FreshS S o) : Fresh S o := fresh_of_freshS hf
 
@@ -183,6 +189,75 @@ def Res.exc : Res → Option Exc
   | _ => none
 
 def isOk {α : Type} (r : Except Err α) : Bool := match r with | .ok _ => true | .error _ => false
+
+/-- **the translation of reference values inside `update`, full statement**: C13's evaluation of the temporary correlation
+(`Merge.getH/getS` with `rawEvalOf S` for "away from the reference temperature" and the reference value itself at it) is
+the C05/C06 getter of the constructed temporary correlation, for every temperature.  False as it stands: see
+`HIST_translation_full_fails`. -/
+def HIST_translation_is_C05_full : Prop :=
+  ∀ (S : Spl) (c : Corr) (o : Incomplete) (T : Rat), construct S c = .ok o →
+    Merge.getH (rawEvalOf S) c T = liftOut (o.HoRT T).1 ∧ Merge.getS (rawEvalOf S) c T = liftOut (o.SoR T).1
+
+/-- **…proved away from the reference temperature and from 0 K**, for every interpolant family (no assumption on SciPy):
+value, `IncompleteDataError` outside the range, missing reference value — all as the C05/C06 model of the constructed object
+says. -/
+theorem HIST_translation_is_C05_partial {S : Spl} {c : Corr} {o : Incomplete} (hc : construct S c = .ok o) (T : Rat)
+    (hT : T ≠ c.Tref) (h0 : T ≠ 0) :
+    Merge.getH (rawEvalOf S) c T = liftOut (o.HoRT T).1 ∧ Merge.getS (rawEvalOf S) c T = liftOut (o.SoR T).1 :=
+  ⟨getH_is_thermo hc T (fun h => absurd h h0) (fun h => absurd h hT), getS_is_thermo hc T (fun h => absurd h hT)⟩
+
+/-- **…and at the reference temperature** when the interpolant's integrals are additive (`Interp.Good`, assumption A-spline
+of C05) and the range of the table correlation starts above 0 K: there C13 returns the reference value itself
+(assumption A-ref of the C13 model), and so does C05 (`C05_ref_enthalpy`, `C05_ref_entropy`). -/
+theorem HIST_reference_is_C05 {S : Spl} {c : Corr} {o : Incomplete} (hc : construct S c = .ok o)
+    (hg : (S (sortPts c.cp)).Good) (hpos : ∀ d, o.corr = some d → 0 < d.range.1) :
+    Merge.getH (rawEvalOf S) c c.Tref = liftOut (o.HoRT c.Tref).1 ∧
+    Merge.getS (rawEvalOf S) c c.Tref = liftOut (o.SoR c.Tref).1 := by
+  have key : ∀ d, o.corr = some d → d.HoRT c.Tref = .ok d.Href ∧ d.SoR c.Tref = .ok d.Sref ∧ c.Tref ≠ 0 := by
+    intro d hd
+    cases hcp : c.cp with
+    | nil =>
+      obtain ⟨hf, hh, -, -⟩ := construct_ok hc
+      have : o.cp = [] := by have := congrArg CorrOf.cp hh; simp only [held] at this; rw [this, hcp]
+      rw [hf.nocp this] at hd; cases hd
+    | cons p ps =>
+      obtain ⟨d', hmk, ho⟩ := construct_cons hc hcp
+      rw [ho] at hd
+      simp only [Option.some.injEq] at hd
+      subst hd
+      have hb := RawData.mk_built hmk
+      have hp := hpos d' (by rw [ho])
+      have h1 := C05_ref_enthalpy hmk hg hp
+      have h2 := C05_ref_entropy hmk hg hp
+      rw [← hb.href] at h1
+      rw [← hb.sref] at h2
+      have hz : c.Tref ≠ 0 := by
+        have : d'.range.1 ≤ c.Tref := by have := hb.lo_le_ref; rwa [hb.tref] at this
+        exact ne_of_gt (lt_of_lt_of_le hp this)
+      exact ⟨h1, h2, hz⟩
+  exact ⟨getH_is_thermo hc c.Tref (fun _ => rfl) (fun _ _ d hd => (key d hd).1),
+         getS_is_thermo hc c.Tref (fun _ d hd => ⟨(key d hd).2.1, (key d hd).2.2⟩)⟩
+
+def witT0 : Corr := ⟨some 1, some 2, [(300, 1)], 300, some (-10, 600)⟩
+
+/-- **the excluded point**: at 0 K inside the range and away from `T_ref` the C13 model returns a number (`x / 0 = 0` in
+`Rat`) where the C05 model — and the code: `ThermochemIncomplete(1, 2, {300: 1}, 300, (-10, 600)).get_HoRT(0.0)` raises
+`ZeroDivisionError`, and so does `update` into a correlation with `T_ref = 0` — has the division by zero.  The state machine
+takes `update` from C13, so its `update` is exact only for target reference temperatures other than 0 K (assumption "positive
+temperatures" of C05/C06). -/
+theorem HIST_translation_full_fails : ¬ HIST_translation_is_C05_full := by
+  intro h
+  have hw : (match construct exS witT0 with
+      | .ok o => decide (Merge.getH (rawEvalOf exS) witT0 0 = .ok 0) && decide (liftOut (o.HoRT 0).1 = .error .zeroDiv)
+      | .error _ => false) = true := by decide +kernel
+  cases hc : construct exS witT0 with
+  | error e => rw [hc] at hw; cases hw
+  | ok o =>
+    rw [hc] at hw
+    simp only [Bool.and_eq_true, decide_eq_true_eq] at hw
+    have := (h exS witT0 o 0 hc).1
+    rw [hw.1, hw.2] at this
+    cases this
 
 def witH2 : Corr := ⟨some 1, some 2, [(300, 1), (400, 2), (500, 3)], 450, none⟩
 
